@@ -4,6 +4,7 @@ Histories: bounded exhaustive exploration of sequences of public calls (with in-
 containers and clock changes in between), each on a fresh library state; every observation must equal the pristine
 observation of the same call.  Schedules: preemption-bounded exploration of two threads racing on the first use of
 lazily filled process-wide state, under a cooperative scheduler (sys.settrace), on the real functions."""
+import os
 import sys
 import datetime
 import inspect
@@ -607,7 +608,9 @@ def work(item):
                              if p.default is inspect.Parameter.empty]) == 1][:5]
             # a close neighbour of the first seed (same length and shape: same internal tables / format objects)
             try:
-                near = [x for x in e2.valid_set(name, m0, 'quick', nseeds=1, cap=4)[0] if x != vals[0]]
+                near = [x for x in e2.valid_set(name, m0, 'quick', nseeds=1, cap=40)[0] if x != vals[0] and len(x) == len(vals[0])]
+                # the one that shares the longest head with the seed (same region / type: same internal objects)
+                near.sort(key=lambda x: (-len(os.path.commonprefix([x, vals[0]])), x))
             except Exception:
                 near = []
             for fn in fns:
@@ -616,6 +619,10 @@ def work(item):
                     n0, t0 = _steady(res, name, [(name, fn, (vals[0],), ()), (name, fn, (near[0],), ())], quick)
                     n += n0
                     nt += t0
+                # both threads with the same number (whatever object the call shares is certainly shared)
+                n0, t0 = _steady(res, name, [(name, fn, (vals[0],), ()), (name, fn, (vals[0],), ())], quick)
+                n += n0
+                nt += t0
                 # option variants: the second thread uses a non-default option with a number valid under it
                 f0 = getattr(m0, fn)
                 for o in option_sets(name, f0, m0.validate)[0][1:3]:
